@@ -395,7 +395,26 @@ class Interp:
         if not broke:
             self.exec_block(st.orelse, frame)
 
+    def loop_spec(self, st, frame):
+        specs = getattr(self, "loop_specs", None)
+        if not specs:
+            return None
+        base = frame.key.split("<")[0]
+        try:
+            fi = self.pkg.func(base)
+        except Exception:
+            return None
+        loops = [n for n in ast.walk(fi.node) if isinstance(n, (ast.While, ast.For))]
+        loops.sort(key=lambda n: (n.lineno, n.col_offset))
+        for i, n in enumerate(loops):
+            if n is st:
+                return specs.get((base, i))
+        return None
+
     def st_While(self, st, frame):
+        spec = self.loop_spec(st, frame)
+        if spec is not None:
+            return self.while_by_invariant(st, frame, spec)
         n = 0
         while self.truth(self.eval(st.test, frame)):
             n += 1
@@ -409,6 +428,28 @@ class Interp:
                 return
             except ContinueSig:
                 continue
+        self.exec_block(st.orelse, frame)
+
+    def while_by_invariant(self, st, frame, spec):
+        """cut the loop at its head: invariant on entry (obligation), havoc
+        the modified variables, assume the invariant; one arbitrary iteration
+        must re-establish it (obligation, then the path stops); the exit path
+        continues with invariant and negated condition"""
+        tag = f"loop:{frame.key.split(':')[-1]}"
+        self.path.obligation(f"{tag}/invariant-on-entry",
+                             spec.invariant(self, frame.env),
+                             "loop invariant holds on entry")
+        for name in spec.modifies:
+            frame.env[name] = spec.havoc(self, name, frame.env[name])
+        self.path.assume(spec.invariant(self, frame.env))
+        self.path.ledger.add("A6: loop cut at its invariant (termination "
+                             "not verified)")
+        if self.truth(self.eval(st.test, frame)):
+            self.exec_block(st.body, frame)
+            self.path.obligation(f"{tag}/invariant-preserved",
+                                 spec.invariant(self, frame.env),
+                                 "loop invariant is preserved by the body")
+            raise StopPath()
         self.exec_block(st.orelse, frame)
 
     def st_Delete(self, st, frame):
